@@ -342,6 +342,8 @@ class Cubic(Family):
 
 
 FAMILIES = {"rq": RQ(), "linear": Linear(), "quadratic": Quadratic(), "cubic": Cubic()}
+QUADRATIC_TAILS_PARAM = Quadratic(tails_shape=True)       # boundary heights derived from the interior ones (what unconstrained_quadratic_spline passes)
+QUADRATIC_TAILS_PARAM.name = "quadratic_tailsparam"
 
 
 # ---------------------------------------------------------------------------------------------------------
